@@ -104,6 +104,8 @@ class WriterTranslator:
     # -- guards
     def guard(self, t: ast.AST, fi: FuncInfo, env: dict[str, ast.AST]) -> Any:
         t2 = _Subst(env).visit(copy.deepcopy(t))
+        for _ in range(3):  # env values may themselves mention env-bound names
+            t2 = _Subst(env).visit(t2)
         iv = interval_of(self.repo, fi, t2)
         if iv is not None:
             try:
@@ -113,13 +115,28 @@ class WriterTranslator:
             return ("interval", var, iv[1], iv[2])
         if isinstance(t2, ast.UnaryOp) and isinstance(t2.op, ast.Not):
             return ("not", self.guard(t2.operand, fi, {}))
+        if isinstance(t2, ast.BoolOp) and isinstance(t2.op, ast.Or):
+            # v < LO or v > HI  ==  not (LO <= v <= HI)
+            inner = interval_of(self.repo, fi, ast.UnaryOp(op=ast.Not(), operand=t2))
+            if inner is not None:
+                try:
+                    var = self._canon(ast.parse(inner[0], mode="eval").body, fi)
+                except SyntaxError:
+                    var = inner[0]
+                return ("not", ("interval", var, inner[1], inner[2]))
         return ("truthy", self._canon(t2, fi))
 
     # -- statements
     def block(self, stmts: list[ast.stmt], fi: FuncInfo, env: dict[str, ast.AST], depth: int) -> list:
         env = dict(env)
         out: list = []
-        for s in stmts:
+        for i, s in enumerate(stmts):
+            # guard clause with early return:  if c: A; return   <rest>   ==   if c: A  else: <rest>
+            if isinstance(s, ast.If) and not s.orelse and s.body and isinstance(s.body[-1], ast.Return) and s.body[-1].value is None and i + 1 < len(stmts):
+                a = self.block(s.body[:-1], fi, env, depth)
+                b = self.block(stmts[i + 1:], fi, env, depth)
+                out.append(("ALT", self.guard(s.test, fi, env), a, b))
+                return out
             out.extend(self.stmt(s, fi, env, depth))
         return out
 
@@ -148,6 +165,14 @@ class WriterTranslator:
             if _is_raise(s.body):
                 return [("GUARD", ("not", g))] + b
             return [("ALT", g, a, b)]
+        if isinstance(s, ast.For) and s.body and isinstance(s.body[-1], ast.AugAssign) and isinstance(s.body[-1].op, ast.Add) \
+                and isinstance(s.body[-1].target, ast.Name) and self.repo.fold_in(s.body[-1].value, fi) == 1 \
+                and isinstance(env.get(s.body[-1].target.id), ast.Constant) and env[s.body[-1].target.id].value == 0 and isinstance(s.target, ast.Name):
+            # counter idiom:  i = 0; for x in xs: ...; i += 1   ==   for i, x in enumerate(xs): ...
+            cnt = s.body[-1].target.id
+            s = ast.copy_location(ast.For(target=ast.Tuple(elts=[ast.Name(id=cnt, ctx=ast.Store()), s.target], ctx=ast.Store()),
+                                          iter=ast.Call(func=ast.Name(id="enumerate", ctx=ast.Load()), args=[s.iter], keywords=[]), body=s.body[:-1], orelse=s.orelse), s)
+            ast.fix_missing_locations(s)
         if isinstance(s, ast.For):
             it = s.iter
             tvars = [unparse(x) for x in (s.target.elts if isinstance(s.target, ast.Tuple) else [s.target])]
@@ -212,6 +237,12 @@ class WriterTranslator:
             return [("OP", v)]
         if isinstance(e2, ast.BinOp) and isinstance(e2.op, ast.Add):
             return self.tok(e2.left, fi, {}) + self.tok(e2.right, fi, {})
+        if isinstance(e2, ast.IfExp):
+            return [("ALT", self.guard(e2.test, fi, {}), self.tok(e2.body, fi, {}), self.tok(e2.orelse, fi, {}))]
+        if isinstance(e2, ast.Call) and unparse(e2.func) != "struct.pack":
+            sb = self.repo.struct_binding(e2.func, fi)
+            if sb is not None and sb[1] == "pack":
+                e2 = ast.Call(func=ast.parse("struct.pack", mode="eval").body, args=[ast.Constant(value=sb[0])] + list(e2.args), keywords=[])
         if isinstance(e2, ast.Call) and unparse(e2.func) == "struct.pack":
             fmt = self.repo.fold_in(e2.args[0], fi)
             if not isinstance(fmt, str):
@@ -303,7 +334,14 @@ class ReaderTranslator:
         env = dict(env)
         out: list = []
         ret = None
-        for s in stmts:
+        for i, s in enumerate(stmts):
+            if isinstance(s, ast.If) and not s.orelse and s.body and isinstance(s.body[-1], ast.Return) and s.body[-1].value is None and i + 1 < len(stmts) \
+                    and not all(isinstance(x, (ast.Raise, ast.Return)) for x in s.body):
+                a, _ra = self.block(s.body[:-1], fi, env, depth)
+                b, rb = self.block(stmts[i + 1:], fi, env, depth)
+                ttoks, tv = self.value(s.test, fi, env, depth)
+                out.extend(ttoks + [("ALT", tv, a, b)])
+                return out, rb
             t, r, stop = self.stmt(s, fi, env, depth)
             out.extend(t)
             if r is not None:
@@ -326,9 +364,16 @@ class ReaderTranslator:
             if s.value is None:
                 return [], None, False
             toks, v = self.value(s.value, fi, env, depth)
+            if len(tgts) == 1 and isinstance(tgts[0], ast.Name) and isinstance(s.value, ast.Attribute) and unparse(s.value) == "self.stack":
+                env[tgts[0].id] = ("stack",)
+                return toks, None, False
             t = tgts[0]
             if len(tgts) == 1 and isinstance(t, ast.Name):
                 env[t.id] = v
+                return toks, None, False
+            if len(tgts) == 1 and isinstance(t, (ast.Tuple, ast.List)) and all(isinstance(x, ast.Name) for x in t.elts):
+                for i, x in enumerate(t.elts):
+                    env[x.id] = ("index", v, ("const", i))
                 return toks, None, False
             if len(tgts) == 1 and isinstance(t, ast.Subscript):
                 btoks, base = self.value(t.value, fi, env, depth)
@@ -407,6 +452,8 @@ class ReaderTranslator:
                 env[k] = ("altcfg", flag, ea.get(k), eb.get(k))
 
     def _slice(self, sl, fi, env, depth):
+        if isinstance(sl, ast.Name) and isinstance(env.get(sl.id), tuple) and env[sl.id] and env[sl.id][0] == "slice":
+            return env[sl.id]
         if isinstance(sl, ast.Slice):
             lo = self.value(sl.lower, fi, env, depth)[1] if sl.lower is not None else None
             hi = self.value(sl.upper, fi, env, depth)[1] if sl.upper is not None else None
@@ -449,6 +496,8 @@ class ReaderTranslator:
             if isinstance(e.slice, ast.Slice):
                 return t, ("getslice", b, self._slice(e.slice, fi, env, depth))
             t2, k = self.value(e.slice, fi, env, depth)
+            if isinstance(k, tuple) and k and k[0] == "slice":
+                return t + t2, ("getslice", b, k)
             return t + t2, ("index", b, k)
         if isinstance(e, ast.BinOp):
             t1, l = self.value(e.left, fi, env, depth)
@@ -464,6 +513,15 @@ class ReaderTranslator:
             return t, ("star", v)
         if isinstance(e, ast.Compare) or isinstance(e, ast.BoolOp):
             return [], ("cond", norm(e))
+        if isinstance(e, ast.IfExp):
+            tt, tv = self.value(e.test, fi, env, depth)
+            ta, va = self.value(e.body, fi, env, depth)
+            tb, vb = self.value(e.orelse, fi, env, depth)
+            if ta or tb:
+                raise Unsupported(f"reader: conditional expression with stream effects in {fi.short}")
+            if isinstance(tv, tuple) and tv[0] == "field" and tv[1] in ("py2str_as_py3str", "py3str_as_py2str"):
+                return tt, ("altcfg", tv[1], va, vb)
+            return tt, ("ifexp", tv, va, vb)
         if isinstance(e, ast.Call):
             return self.call(e, fi, env, depth)
         raise Unsupported(f"reader: expression {norm(e)} in {fi.short} not understood")
@@ -476,6 +534,8 @@ class ReaderTranslator:
             t, v = self.value(a, fi, env, depth)
             toks += t
             args.append(v)
+        if isinstance(c.func, ast.Attribute) and isinstance(c.func.value, ast.Name) and env.get(c.func.value.id) == ("stack",):
+            fn = "self.stack." + c.func.attr
         if fn == "self.stream.read" and len(args) == 1:
             name = self.fresh("read")
             return toks + [("READ", args[0], name)], ("bytes", name, args[0])
@@ -492,10 +552,33 @@ class ReaderTranslator:
             return toks, ("unpack", ("const", sb[0]), args[0])
         if fn in ("len", "type", "isinstance"):
             return toks, (fn,) + tuple(args)
+        if fn == "slice" and len(args) == 2:
+            return toks, ("slice", args[0], None if args[1] == ("const", None) else args[1])
         if fn in ("int", "complex", "tuple", "set", "frozenset", "list", "bytes", "str", "float"):
             return toks, ("call", fn, tuple(args))
+        if isinstance(c.func, ast.Name) and isinstance(env.get(c.func.id), tuple) and env[c.func.id] and env[c.func.id][0] == "dispatch":
+            alts = []
+            for m in env[c.func.id][1]:
+                formals = [a.arg for a in m.node.args.args]
+                env2 = dict(zip(formals, args))
+                if depth > MAXDEPTH:
+                    raise Unsupported("reader: inlining depth exceeded")
+                t, _r = self.block(m.node.body, m, env2, depth + 1)
+                alts.append(t)
+            if all(a == alts[0] for a in alts):
+                return toks + alts[0], None
+            raise Unsupported(f"reader: dispatch targets of {fn} in {fi.short} have different stream effects")
         if isinstance(c.func, ast.Name) and c.func.id in env:
             return toks, ("call", env[c.func.id], tuple(args))
+        if isinstance(c.func, ast.Attribute) and c.func.attr == "get" and isinstance(c.func.value, ast.Attribute) and unparse(c.func.value.value) in ("self", "cls"):
+            ms = []
+            for cc in self.repo.mro(self.ci):
+                for st in cc.node.body:
+                    tgt = st.targets[0] if isinstance(st, ast.Assign) else (st.target if isinstance(st, ast.AnnAssign) else None)
+                    if isinstance(tgt, ast.Name) and tgt.id == c.func.value.attr and isinstance(getattr(st, "value", None), ast.Dict):
+                        ms = [cc.methods[v.id] for v in st.value.values if isinstance(v, ast.Name) and v.id in cc.methods]
+            if ms:
+                return toks, ("dispatch", ms)
         if isinstance(c.func, ast.Attribute) and c.func.attr == "decode":
             t, recv = self.value(c.func.value, fi, env, depth)
             return toks + t, ("decode", args[0] if args else ("const", "utf-8"), recv)
@@ -509,6 +592,8 @@ class ReaderTranslator:
             env2 = dict(zip(formals, args))
             t, r = self.block(m.node.body, m, env2, depth + 1)
             return toks + t, r
+        if isinstance(c.func, ast.Attribute) and isinstance(c.func.value, ast.Name) and env.get(c.func.value.id) == ("field", "channelfactory") and c.func.attr == "new" and len(args) == 1:
+            return toks, ("channel", args[0])
         if fn == "self.channelfactory.new" and len(args) == 1:
             return toks, ("channel", args[0])
         if fn.split(".")[-1] in ("LoadError", "EOFError", "DataFormatError"):
@@ -530,6 +615,20 @@ def canon_reader(term: list) -> list:
         k = v[0]
         if k == "bytes":
             return ("R", reads.get(v[1], v[1]))
+        if k == "call" and len(v) == 3 and isinstance(v[2], tuple) and len(v[2]) == 1 and isinstance(v[2][0], tuple) and v[2][0] and v[2][0][0] == "star" \
+                and isinstance(v[2][0][1], tuple) and v[2][0][1][0] == "unpack":
+            u = v[2][0][1]
+            fmt = u[1][1] if isinstance(u[1], tuple) and u[1][0] == "const" else None
+            if isinstance(fmt, str):
+                nf = len(struct.unpack(fmt, b"\0" * struct.calcsize(fmt)))
+                return ("call", v[1], tuple(("index", val(u), ("const", i)) if not (nf == 1) else val(("index", u, ("const", 0))) for i in range(nf)))
+        if k == "index" and isinstance(v[1], tuple) and v[1][0] == "unpack" and v[2] == ("const", 0) and isinstance(v[1][1], tuple) \
+                and v[1][1][0] == "const" and isinstance(v[1][1][1], str) and len(struct.unpack(v[1][1][1], b"\0" * struct.calcsize(v[1][1][1]))) > 1:
+            return ("index", ("unpack", val(v[1][1]), val(v[1][2])), ("const", 0))
+        if k == "call" and v[1] == "int" and len(v[2]) == 1:
+            inner = val(v[2][0])
+            if isinstance(inner, tuple) and inner and inner[0] == "int4":
+                return inner  # int() of an int is the identity
         if k == "index" and isinstance(v[1], tuple) and v[1][0] == "unpack" and v[2] == ("const", 0):
             fmt = val(v[1][1])
             if fmt == ("const", "!i"):
@@ -570,6 +669,8 @@ def _collection_idiom(term: list) -> list:
     for tok in term:
         if tok[0] == "ALT":
             n, a, b = tok[1], tok[2], tok[3]
+            while isinstance(n, tuple) and n and n[0] == "not":
+                n, a, b = n[1], b, a
             neg = ("neg", n)
             want_a = None
             if len(a) == 2 and a[0][0] == "DEL" and a[1][0] == "PUSH":
@@ -606,7 +707,10 @@ def normalize_writer(term: list) -> list:
                     names.setdefault(v, f"e{len(names)}")
                 out.append(("STAR", ren(tok[1]), tuple(names[v] for v in tok[2]), walk(tok[3])))
             elif k == "ALT":
-                out.append(("ALT", tok[1], walk(tok[2]), walk(tok[3])))
+                g, a, b = tok[1], walk(tok[2]), walk(tok[3])
+                while isinstance(g, tuple) and g and g[0] == "not":
+                    g, a, b = g[1], b, a
+                out.append(("ALT", g, a, b))
             elif k in ("INT4", "RAW", "REC"):
                 out.append((k, ren(tok[1])))
             elif k == "PACK":
